@@ -114,6 +114,9 @@ func genZLen(r *sim.Rand) int {
 }
 
 func genKLen(r *sim.Rand) int {
+	if r.Chance(1, 60) {
+		return r.PickInt(8159, 8160, 8161, 8192, 8193, 16384, 20000, 65536+32, 65536+33) // block counter beyond one / two bytes
+	}
 	switch r.Intn(5) {
 	case 0:
 		return r.Range(0, 96) // 1-3 blocks
